@@ -16,16 +16,26 @@ use rust_dsymbols::covers::{finite_universal_cover, subgroup_cover};
 use rust_dsymbols::delaney2d::is_spherical;
 use rust_dsymbols::delaney3d::pseudo_toroidal_cover;
 use rust_dsymbols::derived::{as_dsym, build_set, canonical, minimal_image, subsymbol};
-use rust_dsymbols::dsets::{DSet, PartialDSet};
-use rust_dsymbols::dsyms::{DSym, PartialDSym};
+use rust_dsymbols::dsets::{DSet, PartialDSet, SimpleDSet};
+use rust_dsymbols::dsyms::{DSym, PartialDSym, SimpleDSym};
 use rust_dsymbols::fpgroups::free_words::FreeWord;
 use rust_dsymbols::fundamental_group::{fundamental_group, inner_edges};
 use rust_dsymbols::simplify::{simplify, verif_hooks as hk};
+use rust_dsymbols::util::cutsets::min_vertex_cut_undirected;
 use std::panic::{catch_unwind, AssertUnwindSafe};
 use verif_harness::dsgen::{all_vs, dsets, random_perm1, random_vs, Tab};
 use verif_harness::{enc_list, Ctx, Rng};
 
 const SLOTS: usize = 320;
+/// size of the id blocks of the cut-network family (6)
+const SLOTS_CUT: usize = 1200;
+/// `split_and_glue` is compared with the model (all admissible choices of `start` tried) up to this
+/// size; above it the step is judged by the Spec clauses only (op `split_and_glue_s`)
+const SG_LIMIT: usize = 100;
+
+fn sg_op(name: &'static str, ds: &PartialDSet) -> &'static str {
+    if name == "split_and_glue" && ds.size() > SG_LIMIT { "split_and_glue_s" } else { name }
+}
 
 // ---------------------------------------------------------------------------------
 // encoders
@@ -150,17 +160,28 @@ fn pend<F: FnOnce() -> String + 'static>(out: &mut Vec<Pending>, op: &'static st
 
 struct Blocks {
     next_block: u64,
+    /// id of the first case of the next block
+    next_id: u64,
 }
 
 impl Blocks {
     /// the block of the next candidate input; `build` runs only in the owning shard
     fn run<F: FnOnce() -> Vec<Pending>>(&mut self, ctx: &mut Ctx, build: F) {
+        self.run_n(ctx, SLOTS, build)
+    }
+
+    /// a block of `slots * nshards` ids.  Blocks of the default size come first (families 1-5),
+    /// so `first_id` of a default block is `k * SLOTS * nshards` as before; the larger blocks of
+    /// family (6) follow them.
+    fn run_n<F: FnOnce() -> Vec<Pending>>(&mut self, ctx: &mut Ctx, slots: usize, build: F) {
         let stride = ctx.nshards as u64;
-        let span = SLOTS as u64 * stride;
+        let span = slots as u64 * stride;
         let k = self.next_block;
         self.next_block += 1;
+        let first = self.next_id;
+        self.next_id += span;
         let (mine, off) = match ctx.only {
-            Some(o) => (o / span == k, o % stride),
+            Some(o) => (o >= first && o < first + span, o % stride),
             None => (k % stride == ctx.shard as u64, ctx.shard as u64),
         };
         if !mine {
@@ -170,11 +191,11 @@ impl Blocks {
             return;
         }
         let mut all = build();
-        if all.len() > SLOTS {
+        if all.len() > slots {
             // keep the head (simplify cases) and an evenly spaced selection of the rest
-            let head = 12.min(all.len());
+            let head = 16.min(all.len());
             let rest: Vec<Pending> = all.split_off(head);
-            let want = SLOTS - head;
+            let want = slots - head;
             let total = rest.len();
             for (k, p) in rest.into_iter().enumerate() {
                 if (k * want) / total != ((k + 1) * want) / total {
@@ -629,7 +650,7 @@ fn direct(out: &mut Vec<Pending>, src: &str, ds: &PartialDSet, full_limit: usize
     for (name, f) in ops {
         let res = pre(|| f(ds));
         let nt = matches!(res, Some(Some(_)));
-        case_oo(out, name, src, ds, String::new(), nt, f);
+        case_oo(out, sg_op(name, ds), src, ds, String::new(), nt, f);
         if let Some(Some(Some(next))) = res {
             match name {
                 "fix1" => detail_fix1(out, src, ds),
@@ -668,7 +689,7 @@ fn replay(out: &mut Vec<Pending>, src: &str, ds0: &PartialDSet, rng: &mut Rng, f
         for (name, f) in ops {
             let res = pre(|| f(&state));
             let nt = matches!(res, Some(Some(_)));
-            case_oo(out, name, src, &state, String::new(), nt, f);
+            case_oo(out, sg_op(name, &state), src, &state, String::new(), nt, f);
             match res {
                 None => return,
                 Some(None) => continue,
@@ -705,6 +726,450 @@ fn replay(out: &mut Vec<Pending>, src: &str, ds0: &PartialDSet, rng: &mut Rng, f
 }
 
 // ---------------------------------------------------------------------------------
+// the cut network of split_and_glue: network_edges, cut_with_insides, network_cut,
+// cut_pairs_in_order, make_key, split_and_glue_attempt — each through its own hook
+
+/// what `network_cut(ds, d, mode)` computes before it picks `start` (re-computed here with the
+/// hooks and the public `min_vertex_cut_undirected`), and the chambers `find` can return
+struct CutData {
+    e2i: Vec<usize>,
+    reps: Vec<usize>,
+    edges: Vec<(usize, usize)>,
+    source: usize,
+    sink: usize,
+    cut_vertices: Vec<usize>,
+    inside_vertices: Vec<usize>,
+    marked: Vec<usize>,
+    special: Vec<usize>,
+    starts: Vec<usize>,
+}
+
+fn cut_data(ds: &PartialDSet, d: usize, mode: bool) -> CutData {
+    let (e2i, reps, edges) = hk::make_skeleton(ds);
+    let source = e2i.iter().cloned().max().unwrap_or(0) + 1;
+    let sink = source + 1;
+    let net = hk::network_edges(ds, d, mode, e2i.clone(), edges.clone(), source, sink);
+    let raw = min_vertex_cut_undirected(net, source, sink);
+    let ins = hk::cut_with_insides(raw.cut_vertices.clone(), raw.inside_vertices.clone(), reps.clone(), ds, d);
+    let marked: std::collections::BTreeSet<usize> = ins.iter().flat_map(|&e| ds.orbit([1, 2], e)).collect();
+    let special: Vec<usize> = ds.orbit([0, 1], ds.op(3, d).unwrap());
+    let starts: Vec<usize> = marked.iter().cloned().filter(|&e| matches!(ds.op(0, e), Some(f) if !marked.contains(&f))).collect();
+    CutData {
+        e2i,
+        reps,
+        edges,
+        source,
+        sink,
+        cut_vertices: raw.cut_vertices,
+        inside_vertices: raw.inside_vertices,
+        marked: marked.into_iter().collect(),
+        special,
+        starts,
+    }
+}
+
+enum Sim {
+    Done(Vec<(usize, usize)>),
+    Panics,
+    Diverges,
+}
+
+/// bounded re-run of `cut_pairs_in_order`: only used to keep arguments on which the Rust loops do
+/// not terminate away from the hook (and to count the classes of results)
+fn sim_cut_pairs(ds: &PartialDSet, start: usize, marked: &[usize], special: &[usize]) -> Sim {
+    let n = ds.size();
+    let mut mk = vec![false; n + 2];
+    let mut sp = vec![false; n + 2];
+    for &x in marked {
+        if x <= n {
+            mk[x] = true;
+        }
+    }
+    for &x in special {
+        if x <= n {
+            sp[x] = true;
+        }
+    }
+    macro_rules! op {
+        ($i:expr, $d:expr) => {
+            match ds.op($i, $d) {
+                Some(x) => x,
+                None => return Sim::Panics,
+            }
+        };
+    }
+    let mut result = vec![];
+    let mut d = start;
+    let mut rounds = 0usize;
+    while result.len() < n + 1 {
+        rounds += 1;
+        if rounds > (n + 2) * (n + 2) {
+            return Sim::Diverges;
+        }
+        let mut e = op!(1, d);
+        let mut hops = 0;
+        while mk[op!(0, e)] {
+            e = op!(1, op!(0, e));
+            hops += 1;
+            if hops > n + 1 {
+                return Sim::Diverges;
+            }
+        }
+        if sp[d] {
+            let mut dd = d;
+            let mut hops = 0;
+            while ds.op(1, dd) != Some(e) {
+                result.push((dd, op!(1, op!(0, op!(1, dd)))));
+                dd = op!(0, op!(1, dd));
+                hops += 1;
+                if hops > n + 1 {
+                    return Sim::Diverges;
+                }
+            }
+        } else if ds.op(1, d) != Some(e) {
+            result.push((d, e));
+        }
+        d = op!(2, e);
+        if d == start {
+            break;
+        }
+    }
+    Sim::Done(result)
+}
+
+fn is_rotation(a: &[(usize, usize)], b: &[(usize, usize)]) -> bool {
+    if a.len() != b.len() {
+        return false;
+    }
+    a.is_empty() || (0..a.len()).any(|k| (0..a.len()).all(|i| a[(i + k) % a.len()] == b[i]))
+}
+
+fn mirror(a: &[(usize, usize)]) -> Vec<(usize, usize)> {
+    a.iter().rev().map(|&(x, y)| (y, x)).collect()
+}
+
+/// does `split_and_glue_attempt` terminate on these arguments (its only unbounded loops are the
+/// inner loops of the final `collapse`)?
+fn attempt_terminates(ds: &PartialDSet, glue: usize, ordered: &[(usize, usize)]) -> bool {
+    let r = pre(|| {
+        let mut cur = rust_dsymbols::derived::as_dset(ds);
+        let mut cut = vec![];
+        for &(d, e) in ordered {
+            if cur.walk(d, [1, 0, 1]) != Some(e) {
+                if cur.orbit([0, 1], d).contains(&e) {
+                    cur = hk::cut_face(&cur, d, e);
+                } else {
+                    return None;
+                }
+            }
+            cut.push(cur.op(1, d).unwrap());
+            cut.push(cur.op(1, e).unwrap());
+        }
+        let cur = hk::cut_tile(&cur, &cut);
+        let junk = cur.orbit([0, 1, 3], glue);
+        Some((cur, junk))
+    });
+    match r {
+        Some(Some((cur, junk))) => collapse_terminates(&cur, &junk, 3),
+        _ => true,
+    }
+}
+
+fn case_make_key(out: &mut Vec<Pending>, tags: &str, ds: &PartialDSet, d: usize, ordered: &[(usize, usize)]) {
+    let dd = ds.clone();
+    let ord = ordered.to_vec();
+    pend(out, "make_key", &format!("nt {}", tags), format!("{} {} {}", enc_ds(ds), d, enc_pairs(ordered)), move || {
+        let k = hk::make_key(&dd, d, &ord);
+        format!("{} {} {}", k.0, k.1, k.2)
+    });
+}
+
+fn case_attempt(out: &mut Vec<Pending>, tags: &str, ds: &PartialDSet, glue: usize, ordered: &[(usize, usize)]) {
+    if !attempt_terminates(ds, glue, ordered) {
+        return;
+    }
+    let dd = ds.clone();
+    let ord = ordered.to_vec();
+    let nt = matches!(pre(|| hk::split_and_glue_attempt(ds, glue, ordered.to_vec())), Some(Some(_)));
+    pend(out, "sg_attempt", &format!("{}{}", if nt { "nt " } else { "" }, tags), format!("{} {} {}", enc_ds(ds), glue, enc_pairs(ordered)), move || {
+        enc_oo(hk::split_and_glue_attempt(&dd, glue, ord))
+    });
+}
+
+fn case_cut_pairs(out: &mut Vec<Pending>, tags: &str, ds: &PartialDSet, start: usize, marked: &[usize], special: &[usize]) {
+    if matches!(sim_cut_pairs(ds, start, marked, special), Sim::Diverges) {
+        return;
+    }
+    let dd = ds.clone();
+    let (mk, sp) = (marked.to_vec(), special.to_vec());
+    pend(out, "cut_pairs", &format!("nt {}", tags), format!("{} {} {} {}", enc_ds(ds), start, enc_list(marked), enc_list(special)), move || {
+        enc_pairs(&hk::cut_pairs_in_order(&dd, start, mk, sp))
+    });
+}
+
+fn case_net_edges(out: &mut Vec<Pending>, tags: &str, ds: &PartialDSet, d: usize, mode: bool, e2i: &[usize], edges: &[(usize, usize)], source: usize, sink: usize) {
+    let dd = ds.clone();
+    let (a, b) = (e2i.to_vec(), edges.to_vec());
+    let input = format!("{} {} {} {} {} {} {}", enc_ds(ds), d, mode as usize, enc_list(e2i), enc_pairs(edges), source, sink);
+    pend(out, "net_edges", &format!("nt {}", tags), input, move || {
+        let k = b.len();
+        let mut net = hk::network_edges(&dd, d, mode, a, b, source, sink);
+        // the two stars come out of HashSets: canonical order after the deterministic prefix
+        if net.len() > k {
+            net[k..].sort();
+        }
+        enc_pairs(&net)
+    });
+}
+
+fn case_cut_insides(out: &mut Vec<Pending>, tags: &str, ds: &PartialDSet, d: usize, cutv: &[usize], insv: &[usize], reps: &[usize]) {
+    let dd = ds.clone();
+    let (a, b, c) = (cutv.to_vec(), insv.to_vec(), reps.to_vec());
+    let input = format!("{} {} {} {} {}", enc_list(cutv), enc_list(insv), enc_list(reps), enc_ds(ds), d);
+    pend(out, "cut_insides", &format!("nt {}", tags), input, move || enc_list(&hk::cut_with_insides(a, b, c, &dd, d)));
+}
+
+fn enc_cut(o: Option<Vec<(usize, usize)>>) -> String {
+    match o {
+        None => "N".into(),
+        Some(v) => format!("S {}", enc_pairs(&v)),
+    }
+}
+
+/// all cases of one call `network_cut(ds, d, mode)`; returns the distinct results over the
+/// admissible starts
+fn cut_cases(out: &mut Vec<Pending>, src: &str, ds: &PartialDSet, d: usize, mode: bool, real: bool, rng: &mut Rng, max_starts: usize) -> Vec<Vec<(usize, usize)>> {
+    let base = format!("src={} {} mode={} call={}", src, size_tag(ds.size()), if mode { "edge" } else { "face" }, if real { "real" } else { "extra" });
+    let Some(cd) = pre(|| cut_data(ds, d, mode)) else {
+        // a panic before `start` is picked: the same for every iteration order
+        let dd = ds.clone();
+        pend(out, "net_cut", &format!("{} outcome=panics-before-start", base), format!("{} {} {}", enc_ds(ds), d, mode as usize), move || enc_cut(hk::network_cut(&dd, d, mode)));
+        return vec![];
+    };
+    case_net_edges(out, &base, ds, d, mode, &cd.e2i, &cd.edges, cd.source, cd.sink);
+    case_cut_insides(out, &base, ds, d, &cd.cut_vertices, &cd.inside_vertices, &cd.reps);
+    let sims: Vec<Sim> = cd.starts.iter().map(|&s| sim_cut_pairs(ds, s, &cd.marked, &cd.special)).collect();
+    if sims.iter().any(|s| matches!(s, Sim::Diverges)) {
+        // the real loop would not end for some choice of start: not called
+        for (&s, sim) in cd.starts.iter().zip(sims.iter()) {
+            if !matches!(sim, Sim::Diverges) {
+                case_cut_pairs(out, &base, ds, s, &cd.marked, &cd.special);
+            }
+        }
+        return vec![];
+    }
+    let mut distinct: Vec<Vec<(usize, usize)>> = vec![];
+    let mut classes: Vec<Vec<(usize, usize)>> = vec![];
+    let mut curves: Vec<Vec<(usize, usize)>> = vec![];
+    for sim in &sims {
+        if let Sim::Done(r) = sim {
+            if !distinct.contains(r) {
+                distinct.push(r.clone());
+            }
+            if !classes.iter().any(|c| is_rotation(c, r)) {
+                classes.push(r.clone());
+            }
+            if !curves.iter().any(|c| is_rotation(c, r) || is_rotation(&mirror(c), r)) {
+                curves.push(r.clone());
+            }
+        }
+    }
+    {
+        // how much the result depends on the choice of start: `curves` = classes of results up to
+        // rotation and reversal (closed curves the walk can follow), `rot` = classes up to rotation
+        let tags = format!("{}{} starts={} rot-classes={} curves={}", if cd.starts.is_empty() { "" } else { "nt " }, base, cd.starts.len().min(17), classes.len(), curves.len());
+        let dd = ds.clone();
+        pend(out, "net_cut", &tags, format!("{} {} {}", enc_ds(ds), d, mode as usize), move || enc_cut(hk::network_cut(&dd, d, mode)));
+    }
+    let mut starts = cd.starts.clone();
+    if starts.len() > max_starts {
+        rng.shuffle(&mut starts);
+        starts.truncate(max_starts);
+    }
+    for &s in &starts {
+        case_cut_pairs(out, &base, ds, s, &cd.marked, &cd.special);
+    }
+    distinct
+}
+
+/// keys and attempts for the results of one call, as `split_and_glue` would use them
+fn key_and_attempt_cases(out: &mut Vec<Pending>, src: &str, ds: &PartialDSet, d: usize, mode: bool, real: bool, results: &[Vec<(usize, usize)>], rng: &mut Rng, max_results: usize) {
+    let base = format!("src={} {} mode={} call={}", src, size_tag(ds.size()), if mode { "edge" } else { "face" }, if real { "real" } else { "extra" });
+    let mut idx: Vec<usize> = (0..results.len()).collect();
+    if idx.len() > max_results {
+        rng.shuffle(&mut idx);
+        idx.truncate(max_results);
+    }
+    for k in idx {
+        let ordered = &results[k];
+        case_make_key(out, &base, ds, d, ordered);
+        let wanted = pre(|| hk::make_key(ds, d, ordered)).map(|key| if mode { key.0 == 0 } else { key.0 < 0 }).unwrap_or(false);
+        if (real && wanted) || rng.chance(1, 3) {
+            let tags = format!("{} attempt={}", base, if real && wanted { "as-in-split-and-glue" } else { "other-key" });
+            case_attempt(out, &tags, ds, d, ordered);
+        }
+    }
+}
+
+/// the calls `split_and_glue` makes on this state (`real`), plus `extra` further (chamber, mode)
+/// pairs
+fn cutnet_state(out: &mut Vec<Pending>, src: &str, ds: &PartialDSet, rng: &mut Rng, extra: usize, max_starts: usize, max_results: usize) {
+    let n = ds.size();
+    let mut calls: Vec<(usize, bool, bool)> = vec![];
+    if let Some(reps) = pre(|| ds.orbit_reps([0, 1, 3], 1..=n)) {
+        for d in reps {
+            calls.push((d, false, true));
+        }
+    }
+    if let Some(reps) = pre(|| ds.orbit_reps([0], 1..=n)) {
+        for d in reps {
+            if ds.r(2, 3, d) == Some(3) {
+                calls.push((d, true, true));
+            }
+        }
+    }
+    let mut others: Vec<(usize, bool, bool)> = vec![];
+    for d in 1..=n {
+        for mode in [false, true] {
+            if !calls.contains(&(d, mode, true)) {
+                others.push((d, mode, false));
+            }
+        }
+    }
+    rng.shuffle(&mut others);
+    others.truncate(extra);
+    calls.extend(others);
+    for (d, mode, real) in calls {
+        let results = cut_cases(out, src, ds, d, mode, real, rng, max_starts);
+        key_and_attempt_cases(out, src, ds, d, mode, real, &results, rng, max_results);
+    }
+}
+
+/// deliberately odd arguments for the six hooks (index panics, unwraps, chambers out of range,
+/// arbitrary marked sets and pair lists)
+fn cutnet_seeded(out: &mut Vec<Pending>, src: &str, ds: &PartialDSet, rng: &mut Rng, rounds: usize) {
+    let n = ds.size();
+    if n < 1 {
+        return;
+    }
+    let base = format!("src={} {} call=seeded", src, size_tag(n));
+    let pick = |rng: &mut Rng| 1 + rng.below(n);
+    let Some((e2i, reps, edges)) = pre(|| hk::make_skeleton(ds)) else { return };
+    let source = e2i.iter().cloned().max().unwrap_or(0) + 1;
+    for _ in 0..rounds {
+        // network_edges: chamber out of range, truncated elm_to_index, arbitrary source / sink
+        let d = [0, n + 1, pick(rng), pick(rng)][rng.below(4)];
+        let mode = rng.chance(1, 2);
+        let mut a = e2i.clone();
+        if rng.chance(1, 3) {
+            a.truncate(rng.below(a.len() + 1));
+        }
+        let (so, si) = if rng.chance(1, 2) { (source, source + 1) } else { (rng.below(source + 3), rng.below(source + 3)) };
+        case_net_edges(out, &base, ds, d, mode, &a, &edges, so, si);
+        // cut_with_insides: vertices beyond `reps`
+        let nv = reps.len();
+        let cutv: Vec<usize> = (0..rng.below(4))
+            .map(|_| {
+                let beyond = if rng.chance(1, 4) { 2 } else { 0 };
+                rng.below((nv + beyond).max(1))
+            })
+            .collect();
+        let insv: Vec<usize> = (0..rng.below(5)).map(|_| rng.below(nv + 3)).collect();
+        case_cut_insides(out, &base, ds, d, &cutv, &insv, &reps);
+        // cut_pairs_in_order: arbitrary start, marked = union of a few vertex orbits (or arbitrary chambers)
+        let mut marked: Vec<usize> = vec![];
+        for _ in 0..(1 + rng.below(4)) {
+            let x = pick(rng);
+            if rng.chance(3, 4) {
+                if let Some(orb) = pre(|| ds.orbit([1, 2], x)) {
+                    marked.extend(orb);
+                }
+            } else {
+                marked.push(x);
+            }
+        }
+        let special: Vec<usize> = if rng.chance(1, 2) { pre(|| ds.orbit([0, 1], pick(rng))).unwrap_or_default() } else { vec![pick(rng)] };
+        let start = if rng.chance(3, 4) && !marked.is_empty() { marked[rng.below(marked.len())] } else { [0, n + 1, pick(rng)][rng.below(3)] };
+        case_cut_pairs(out, &base, ds, start, &marked, &special);
+        // make_key / split_and_glue_attempt: arbitrary pairs
+        let ordered: Vec<(usize, usize)> = (0..rng.below(4))
+            .map(|_| {
+                let x = pick(rng);
+                let y = match rng.below(4) {
+                    0 => ds.walk(x, [1, 0, 1]).unwrap_or(x),
+                    1 => ds.walk(x, [1, 0, 1, 0, 1]).unwrap_or(x),
+                    2 => pick(rng),
+                    _ => [0, n + 1, x][rng.below(3)],
+                };
+                (x, y)
+            })
+            .collect();
+        let g = [0, n + 1, pick(rng), pick(rng)][rng.below(4)];
+        case_make_key(out, &base, ds, g, &ordered);
+        case_attempt(out, &base, ds, g, &ordered);
+    }
+}
+
+/// the states on which `simplify` calls `split_and_glue` when started from `ds0` (the start choices
+/// inside are the implementation's own), each with its cut-network cases; the input itself and its
+/// merged form come first
+fn cutnet_pipeline(out: &mut Vec<Pending>, src: &str, ds0: &PartialDSet, rng: &mut Rng, max_states: usize, extra: usize, max_starts: usize, max_results: usize) {
+    cutnet_state(out, &format!("{}-unmerged", src), ds0, rng, extra, max_starts, max_results);
+    let mut state = match pre(|| hk::merge_all(ds0)) {
+        Some(Some(Some(s))) => s,
+        Some(None) => ds0.clone(),
+        _ => return,
+    };
+    let mut visited = 0;
+    for _step in 0..60 {
+        let mut next: Option<PartialDSet> = None;
+        let mut stop = false;
+        let ops: [(&'static str, fn(&PartialDSet) -> OO); 4] = [
+            ("fix1", hk::fix_local_1_vertex),
+            ("fix2", hk::fix_local_2_vertex),
+            ("fnd", hk::fix_non_disk_face),
+            ("split_and_glue", hk::split_and_glue),
+        ];
+        for (name, f) in ops {
+            if name == "split_and_glue" {
+                cutnet_state(out, src, &state, rng, extra, max_starts, max_results);
+                if visited == 0 {
+                    cutnet_seeded(out, src, &state, rng, 3);
+                }
+                visited += 1;
+                if visited >= max_states {
+                    return;
+                }
+            }
+            match pre(|| f(&state)) {
+                Some(Some(Some(s))) => {
+                    next = Some(s);
+                    break;
+                }
+                Some(None) => {}
+                _ => {
+                    stop = true;
+                    break;
+                }
+            }
+        }
+        if stop {
+            return;
+        }
+        match next {
+            Some(s) => {
+                state = match pre(|| hk::merge_all(&s)) {
+                    Some(Some(Some(t))) => t,
+                    Some(None) => s,
+                    _ => return,
+                }
+            }
+            None => return,
+        }
+    }
+}
+
+// ---------------------------------------------------------------------------------
 // simplify cases
 
 /// hyp: 0 = domain only, 1 = finite fundamental group, 2 = pseudo-toroidal cover of a corpus
@@ -713,6 +1178,20 @@ fn case_simplify(out: &mut Vec<Pending>, src: &str, hyp: usize, t: &Tab) {
     let tags = format!("nt src={} hyp={} {}", src, hyp, size_tag(t.size));
     let ds = tab_to_ds(t);
     pend(out, "simplify", &tags, format!("{} {}", hyp, enc_ds(&ds)), move || enc_sym_out(simplify(&ds)));
+}
+
+/// `simplify<T: DSet>` is generic over the trait: the same input held in the other two
+/// representations (`SimpleDSet::from(PartialDSet)`, `SimpleDSym::from(PartialDSym)`), judged by the
+/// same Spec clauses as `simplify` (ops `simplify_sds`, `simplify_ssym`)
+fn case_simplify_simple(out: &mut Vec<Pending>, src: &str, hyp: usize, t: &Tab, as_sym: bool) {
+    let tags = format!("nt src={} hyp={} {} repr={}", src, hyp, size_tag(t.size), if as_sym { "SimpleDSym" } else { "SimpleDSet" });
+    let ds = tab_to_ds(t);
+    let input = format!("{} {}", hyp, enc_ds(&ds));
+    if as_sym {
+        pend(out, "simplify_ssym", &tags, input, move || enc_sym_out(simplify(&SimpleDSym::from(as_dsym(&ds)))));
+    } else {
+        pend(out, "simplify_sds", &tags, input, move || enc_sym_out(simplify(&SimpleDSet::from(ds))));
+    }
 }
 
 /// the same input under several numberings, each simplified `runs` times; every output goes out
@@ -807,6 +1286,12 @@ fn input_cases(out: &mut Vec<Pending>, src: &str, hyp: usize, cov: &Tab, rng: &m
     for sub in &subs {
         case_simplify(out, &tag, if hyp == 1 { 1 } else { 0 }, sub);
     }
+    // the other two implementations of the DSet trait (after the cases above: their ids stay)
+    case_simplify_simple(out, src, hyp, cov, false);
+    match rens.first() {
+        Some(r) => case_simplify_simple(out, src, hyp, r, true),
+        None => case_simplify_simple(out, src, hyp, cov, true),
+    }
     if do_replay {
         replay(out, src, &tab_to_ds(cov), rng, full_limit, max_steps);
         for sub in &subs {
@@ -840,7 +1325,7 @@ fn crystallographic(t: &Tab) -> bool {
 fn main() {
     let mut ctx = Ctx::from_args();
     let thorough = ctx.thorough();
-    let mut blocks = Blocks { next_block: 0 };
+    let mut blocks = Blocks { next_block: 0, next_id: 0 };
     let full_limit = if thorough { 260 } else { 150 };
     let max_steps = if thorough { 60 } else { 40 };
     let nren = if thorough { 5 } else { 2 };
@@ -1096,6 +1581,93 @@ fn main() {
                     }
                 }
             }
+        }
+    }
+    // (6) the cut network of split_and_glue: network_edges, cut_with_insides, network_cut (all
+    // admissible starts), cut_pairs_in_order, make_key, split_and_glue_attempt through their hooks,
+    // on the states on which `simplify` calls `split_and_glue` (replayed from the corpus covers, a
+    // finer decomposition of each, prism and Coxeter covers, the crafted family), on the inputs
+    // themselves before merging, and on all small D-sets (n <= 4 complete with commuting far
+    // operations, n <= 2 partial); in every state the calls `split_and_glue` makes plus further
+    // (chamber, mode) pairs (quick: 6 per state; thorough: every chamber, both modes)
+    {
+        let (max_states, extra, max_starts, max_results) = if thorough { (12usize, usize::MAX, usize::MAX, usize::MAX) } else { (3usize, 6usize, 16usize, 3usize) };
+        for (k, line) in corpus.iter().enumerate() {
+            let mut rng = ctx.rng(7000 + k as u64);
+            let line = line.clone();
+            blocks.run_n(&mut ctx, SLOTS_CUT, move || {
+                let mut out = vec![];
+                let sym: PartialDSym = line.parse().expect("corpus symbol");
+                let Some(cov) = pre(|| pseudo_toroidal_cover(&sym)).flatten() else { return out };
+                let cov = Tab::from_dsym(&cov);
+                cutnet_pipeline(&mut out, "corpus", &tab_to_ds(&cov), &mut rng, max_states, extra, max_starts, max_results);
+                if let Some(sub) = subdivide(&cov, &mut rng, 3) {
+                    if sub.size <= 400 {
+                        cutnet_pipeline(&mut out, "corpus-subdivided", &tab_to_ds(&sub), &mut rng, max_states, extra, max_starts, max_results);
+                    }
+                }
+                out
+            });
+        }
+        let pq_max = if thorough { 6 } else { 4 };
+        for p in 2..=pq_max {
+            for q in 2..=pq_max {
+                let mut rng = ctx.rng(7100 + (10 * p + q) as u64);
+                blocks.run_n(&mut ctx, SLOTS_CUT, move || {
+                    let mut out = vec![];
+                    let sym: PartialDSym = format!("<1.1:1 3:1,1,1,1:{},2,{}>", p, q).parse().expect("prism symbol");
+                    let cov = Tab::from_dsym(&finite_universal_cover(&sym));
+                    if in_domain(&cov) {
+                        cutnet_pipeline(&mut out, "prism-universal", &tab_to_ds(&cov), &mut rng, max_states, extra, max_starts, max_results);
+                        if let Some(sub) = subdivide(&cov, &mut rng, 2) {
+                            cutnet_pipeline(&mut out, "prism-universal-subdivided", &tab_to_ds(&sub), &mut rng, max_states, extra, max_starts, max_results);
+                        }
+                    }
+                    out
+                });
+            }
+        }
+        for (k, s) in finite.iter().enumerate() {
+            let mut rng = ctx.rng(7200 + k as u64);
+            let s = s.to_string();
+            blocks.run_n(&mut ctx, SLOTS_CUT, move || {
+                let mut out = vec![];
+                let sym: PartialDSym = s.parse().expect("finite symbol");
+                let cov = Tab::from_dsym(&finite_universal_cover(&sym));
+                if cov.size <= 200 && in_domain(&cov) {
+                    cutnet_pipeline(&mut out, "finite-universal", &tab_to_ds(&cov), &mut rng, max_states, extra, max_starts, max_results);
+                }
+                out
+            });
+        }
+        // small D-sets, every chamber and both modes
+        let mut small: Vec<(String, Tab)> = vec![];
+        for n in 1..=4usize {
+            for (j, t) in dsets(3, n, true, true, false).into_iter().enumerate() {
+                if thorough || n <= 3 || j % 8 == 0 {
+                    small.push(("small-complete".to_string(), t));
+                }
+            }
+        }
+        for n in 1..=2usize {
+            for (j, t) in dsets(3, n, false, false, true).into_iter().enumerate() {
+                if thorough || j % 4 == 0 {
+                    small.push(("small-partial".to_string(), t));
+                }
+            }
+        }
+        for (k, chunk) in small.chunks(25).enumerate() {
+            let mut rng = ctx.rng(7300 + k as u64);
+            let chunk: Vec<(String, Tab)> = chunk.to_vec();
+            blocks.run_n(&mut ctx, SLOTS_CUT, move || {
+                let mut out = vec![];
+                for (src, t) in &chunk {
+                    let ds = tab_to_ds(t);
+                    cutnet_state(&mut out, src, &ds, &mut rng, usize::MAX, usize::MAX, usize::MAX);
+                    cutnet_seeded(&mut out, src, &ds, &mut rng, 2);
+                }
+                out
+            });
         }
     }
     ctx.finish();
